@@ -5,6 +5,16 @@ props = [json.loads(l) for l in open(os.path.join(VERIF, "properties.jsonl"))]
 ids = [p["id"] for p in props]
 
 CHECKS = {
+ "C03": dict(
+   text="Proof: props/C03.v states that for every netlist any two merge schedules for which the model returns a result yield the same "
+        "remaining pins and the same coefficient for every pin pair (schedule_independent: soundness of both runs + existence of a wave "
+        "solution by back-substitution), and that two declarations of the same circuit (components permuted, connections permuted and "
+        "flipped, exposure permuted) yield the same coefficients (declaration_independent). Closed under the global context. The tie "
+        "forces EVERY valid merge sequence of circuits with up to 4 (quick) / 5 (thorough) structures through a guarded hook in "
+        "Solver.solve and compares each with the model run on the same sequence; declarations are permuted in both construction styles.",
+   note="Trusted: Coq kernel + vm_compute; Bignums primitives for the executed instance; model tied by sampled correspondence; the hook "
+        "commit in /repo (add-only, guarded by LEKKERSIM_VERIF); harness. Conditional on both schedules being defined (inner systems invertible).",
+   technique="Coq proof (all netlists, all schedule pairs) + exhaustive schedule forcing on small circuits vs model", design="§5 C03"),
  "C01": dict(
    text="Proof: props/C01.v states, for every netlist (any components, any complex matrices, any connections incl. feedback loops, "
         "multi-links, disconnected parts, one-port terminations, any exposure subset) and every merge schedule, that a result returned "
